@@ -1,22 +1,23 @@
 #!/bin/bash
-# Runs every kept seeded change (seeded/<ID>-<v>/patch.diff) against the quick check of its property (and listed extra checks),
-# applying it to /repo and reverting it straight afterwards. Writes seeded/RESULTS.md.
+# Runs every kept seeded change (seeded/<ID>-<v>/patch.diff) against the quick check of its property (and listed extra checks)
+# through tools/seedtest_ns.sh (scratch worktree bind-mounted over /repo in a private mount namespace: /repo itself is
+# never modified, evidence and replays of these runs are discarded). Writes seeded/RESULTS.md.
 cd /verif
 out=seeded/RESULTS.md
 echo "| seeded change | check | exit | violations | first violation key |" > $out.tmp
 echo "|---|---|---|---|---|" >> $out.tmp
 for d in seeded/C*-*/; do
   n=$(basename $d); id=${n%-*}
+  [ -n "$ONLY" ] && ! echo " $ONLY " | grep -q " $n " && continue
   checks=$id
-  case $n in C01-b) checks="C01 C14";; C02-b) checks="C02 C13";; C12-a) checks="C12 C06";; C03-a) checks="C03";; esac
+  case $n in C01-b) checks="C01 C14";; C02-b) checks="C02 C13";; C12-a) checks="C12 C06";; C11-c) checks="C11 C14";; C18-c) checks="C18";; esac
   for ck in $checks; do
-    cd /repo; if [ -n "$(git status --porcelain)" ]; then echo "/repo dirty"; exit 2; fi
-    if ! git apply /verif/$d/patch.diff 2>/dev/null; then echo "| $n | $ck | patch does not apply | | |" >> /verif/$out.tmp; cd /verif; continue; fi
-    cd /verif; ./verif check $ck --tier quick > /tmp/sm.log 2>&1; rc=$?
-    git -C /repo checkout -- . ; git -C /repo clean -fdq
-    nv=$(grep -ac "^VIOLATION" /tmp/sm.log)
-    key=$(grep -a "^  key=" /tmp/sm.log | head -1 | cut -c7-120 | tr '|' '/')
+    LINES_MAX=4 tools/seedtest_ns.sh $ck $d/patch.diff quick > /tmp/sm.$n.$ck.log 2>&1
+    rc=$(grep -a '^exit=' /tmp/sm.$n.$ck.log | cut -d= -f2)
+    nv=$(grep -a '^violations:' /tmp/sm.$n.$ck.log | cut -d' ' -f2)
+    key=$(grep -a "^  key=" /tmp/sm.$n.$ck.log | head -1 | cut -c7-120 | tr '|' '/')
     echo "| $n | $ck | $rc | $nv | $key |" >> $out.tmp
+    rm -f /tmp/sm.$n.$ck.log
   done
 done
 mv $out.tmp $out
